@@ -108,6 +108,7 @@ func run(c *props.Ctx) {
 	short1(c)
 	round1(c)
 	elemLaws(c)
+	neighbourOps(c, cfg)
 
 	if len(p.Controls) > 0 {
 		for _, n := range []string{"verifControlShapeBadAttr", "verifControlShapeBadIndex", "verifControlShapeBadParam", "verifControlShapeBadRecv", "verifControlShapeBadCond"} {
@@ -235,4 +236,46 @@ func verifControlShapeBadCond(m modeling.Mesh, attribute string, amount vector3.
 }
 `,
 	}
+}
+
+// neighbourOps: NEIGH-1..4 for the connectivity-based single-attribute operations.
+func neighbourOps(c *props.Ctx, cfg eng.ShapeConfig) {
+	p := c.P
+	mp := p.Pkg("modeling")
+	cst := func(name string) string {
+		if mp == nil {
+			return ""
+		}
+		if o, ok := mp.Types.Scope().Lookup(name).(*types.Const); ok {
+			s := o.Val().ExactString()
+			if len(s) >= 2 && s[0] == '"' {
+				return s[1 : len(s)-1]
+			}
+		}
+		c.R.Failf("anchor constant modeling.%s not found", name)
+		return ""
+	}
+	normal, position := cst("NormalAttribute"), cst("PositionAttribute")
+	table := []struct {
+		name string
+		spec eng.NeighSpec
+	}{
+		{"FlatNormals", eng.NeighSpec{TargetConst: normal, SourceConst: position, Normals: true}},
+		{"SmoothNormals", eng.NeighSpec{TargetConst: normal, SourceConst: position, Normals: true}},
+		{"SmoothNormalsImplicitWeld", eng.NeighSpec{TargetConst: normal, SourceConst: position, Normals: true}},
+		{"LaplacianSmooth", eng.NeighSpec{Laplacian: true}},
+		{"LaplacianSmoothAlongAxis", eng.NeighSpec{Laplacian: true}},
+	}
+	for _, e := range table {
+		fn := p.Func("modeling/meshops", e.name)
+		if fn == nil {
+			c.R.Failf("anchor meshops.%s (connectivity-based operation) not found", e.name)
+			continue
+		}
+		reportShape(c, fn, eng.AnalyseNeighbourOp(fn, e.spec, cfg), nil)
+	}
+	c.R.Floor("NEIGH-1", 15)
+	c.R.Floor("NEIGH-2", 3)
+	c.R.Floor("NEIGH-3", 4)
+	c.R.Floor("NEIGH-4", 2)
 }
